@@ -133,13 +133,14 @@ class LoopSpec:
     """Inductive invariant for one loop of a function (by ordinal, in source order)."""
 
     def __init__(self, invariant: Callable = None, modifies: List[str] = None, havoc: Callable = None,
-                 unroll: bool = False, name: str = "", decreases: Callable = None):
+                 unroll: bool = False, name: str = "", decreases: Callable = None, skip: List[str] = None):
         self.invariant = invariant  # invariant(interp, env, it) -> list[(name, z3 bool)]
         self.modifies = modifies    # extra names to havoc (beyond syntactically assigned locals)
         self.havoc = havoc          # havoc(interp, env, it): custom havoc of heap/ghost state
         self.unroll = unroll
         self.name = name
         self.decreases = decreases
+        self.skip = skip or []      # names the custom havoc takes care of
 
 
 class Registry:
@@ -1519,7 +1520,7 @@ class Interp:
                     names.remove(sub.id)
         for nm in names:
             ok, old = env.lookup(nm)
-            if ok and nm in env.vars:
+            if ok and nm in env.vars and nm not in spec.skip:
                 env.vars[nm] = self.havoc_value(old, nm)
         if spec.havoc:
             spec.havoc(self, env, it)
@@ -1588,6 +1589,9 @@ class Interp:
             it["items"] = items
             it["n"] = z3.IntVal(len(items))
             it["i"] = z3.IntVal(0)
+        elif isinstance(itv, TheoryObj) and itv.theory == "symiter":
+            # a collection of unknown size whose arbitrary element is produced by itv.fields['mk'](interp)
+            it["symiter"] = itv
         else:
             raise Unsupported(f"invariant-cut for loop over {type(itv).__name__}")
         # entry
@@ -1600,7 +1604,7 @@ class Interp:
                 names.remove(sub.id)
         for nm in names:
             ok, old = env.lookup(nm)
-            if ok and nm in env.vars:
+            if ok and nm in env.vars and nm not in spec.skip:
                 env.vars[nm] = self.havoc_value(old, nm)
         if spec.havoc:
             spec.havoc(self, env, it)
@@ -1609,6 +1613,8 @@ class Interp:
             lo = it.get("lo", z3.IntVal(0))
             c.assume(z3.And(i >= lo, i <= z3.If(it["n"] >= lo, it["n"], lo)))
             it["i"] = i
+        elif "symiter" in it:
+            pass
         else:
             done = c.fresh("done", itv.z.sort())
             c.assume(z3.IsSubset(done, itv.z))
@@ -1618,6 +1624,8 @@ class Interp:
         # exit or one more iteration
         if "i" in it:
             more = c.decide(it["i"] < it["n"], "for-more")
+        elif "symiter" in it:
+            more = c.flip("for-more")
         else:
             more = c.decide(it["done"] != itv.z, "for-more")
         if not more:
@@ -1626,6 +1634,9 @@ class Interp:
             return
         if isinstance(itv, SSeq):
             item = wrap(itv.kind, itv.z[it["i"]])
+        elif "symiter" in it:
+            item = itv.fields["mk"](self)
+            it["elem"] = item
         elif "lo" in it:
             item = SInt(it["i"])
         elif "items" in it:
@@ -1650,6 +1661,8 @@ class Interp:
             pass
         if "i" in it:
             it["i"] = it["i"] + 1
+        elif "symiter" in it:
+            it["after_body"] = True
         else:
             it["done"] = z3.SetAdd(it["done"], it["elem"])
         for nm, inv in spec.invariant(self, env, it) if spec.invariant else []:
